@@ -186,6 +186,8 @@ structure St where
   globals : List (Nat × Val)        -- var id ↦ value
   locals : Array (Array Val)        -- frame ↦ local variable values
   steps : Nat := 100000             -- global step budget (the `fuel` arguments only bound recursion depth)
+  undef : List (Root × Nat) := []   -- variables without initializer that were never stored (root, storage class)
+  notes : List Nat := []            -- storage classes of variables that were read while undefined
   deriving Inhabited
 
 structure Frame where
@@ -193,6 +195,17 @@ structure Frame where
   env : Array (Option Val)          -- SSA id ↦ value (function-local variables: pointer values)
   nlocals : Nat
   deriving Inhabited
+
+/-- the same shape with every scalar leaf undefined -/
+partial def poisonize : Val → Val
+  | .vec xs => .vec (xs.map poisonize)
+  | .comp xs => .comp (xs.map poisonize)
+  | _ => .unit
+
+partial def hasPoison : Val → Bool
+  | .unit => true
+  | .vec xs | .comp xs => xs.any hasPoison
+  | _ => false
 
 def bits : Val → Option W
   | .i32 v | .u32 v | .f32 v => some v
@@ -404,19 +417,30 @@ mutual
           | none => opt (zeroOf m.types m.consts 16 pointee) "local zero value"
         let frl ← opt st.locals[fr.id]? "frame"
         let idx := frl.size
-        let st := { st with locals := st.locals.set! fr.id (frl.push init) }
+        let st := { st with locals := st.locals.set! fr.id (frl.push init),
+                            undef := if w[3]?.isNone then (.local fr.id idx, 7) :: st.undef else st.undef }
         execInsts m fuel rest st { fr with env := fr.env.setIfInBounds ((w.getD 1 0)) (some (.ptr (.local fr.id idx) [])) }
+      | 224 | 225 => execInsts m fuel rest st fr                       -- OpControlBarrier / OpMemoryBarrier: one invocation
+      | 400 | 83 => do def_ (← v 2)                                     -- OpCopyLogical / OpCopyObject
       | 61 => do   -- Load
         match (← v 2) with
         | .ptr r p => do
           let root ← opt (readRoot st r) "load root"
-          def_ (← opt (getPath root p) "load path out of bounds")
+          let lv ← opt (getPath root p) "load path out of bounds"
+          -- a variable declared without initializer holds an undefined value until it is stored (OpVariable):
+          -- the read is recorded (storage class) and execution continues with the zero value
+          match st.undef.find? (·.1 == r) with
+          | some (_, sc) =>
+            let st' := { st with notes := if st.notes.contains sc then st.notes else sc :: st.notes }
+            execInsts m fuel rest st' { fr with env := fr.env.setIfInBounds ((w.getD 1 0)) (some lv) }
+          | none => def_ lv
         | _ => throw (.stuck "load of non-pointer")
       | 62 => do   -- Store
         match (← valOf m fr (w.getD 0 0)) with
         | .ptr r p => do
           let root ← opt (readRoot st r) "store root"
           let nr ← opt (setPath root p (← valOf m fr (w.getD 1 0))) "store path out of bounds"
+          let st := { st with undef := st.undef.filter (·.1 != r) }
           execInsts m fuel rest (← opt (writeRoot st r nr) "store write") fr
         | _ => throw (.stuck "store to non-pointer")
       | 65 => do   -- AccessChain
@@ -536,7 +560,7 @@ partial def flatten : Val → List Nat
   | _ => []
 
 /-- Run entry point `ep`; `inputs`: binding ↦ words.  Returns binding ↦ final words. -/
-def run (m : Module) (ep : String) (inputs : List (Nat × List Nat)) (fuel : Nat) : M (List (Nat × List Nat)) := do
+def run (m : Module) (ep : String) (inputs : List (Nat × List Nat)) (fuel : Nat) : M (List (Nat × List Nat) × List Nat) := do
   let eid ← opt ((m.entry.find? (·.1 == ep)).map (·.2)) "entry point name"
   let f ← opt (m.fns.find? (·.id == eid)) "entry function"
   let gs ← m.vars.mapM (fun (id, pty, _sc, init) => do
@@ -549,9 +573,16 @@ def run (m : Module) (ep : String) (inputs : List (Nat × List Nat)) (fuel : Nat
     | none =>
       match init with
       | some c => do pure (id, ← opt (lookupL m.consts c) "variable initializer")
-      | none => do pure (id, ← opt (zeroOf m.types m.consts 16 pointee) "global zero"))
-  let st : St := { globals := gs, locals := #[], steps := fuel }
+      | none => do
+        let z ← opt (zeroOf m.types m.consts 16 pointee) "global zero"
+        -- Workgroup (4) and Private (6) variables without initializer are undefined until stored;
+        -- Input (1) built-ins of the single invocation are all zero.
+        pure (id, z))
+  -- Workgroup (4) and Private (6) variables without initializer are undefined until stored
+  let undef : List (Root × Nat) := m.vars.filterMap (fun (id, _, sc, init) =>
+    if init.isNone && (sc == 4 || sc == 6) && (lookupL m.bindings id).isNone then some (Root.global id, sc) else none)
+  let st : St := { globals := gs, locals := #[], steps := fuel, undef := undef }
   let (_, st) ← callFn m 30000 f [] st
-  pure (m.bindings.filterMap (fun (id, b) => (lookupL st.globals id).map (fun v => (b, flatten v))))
+  pure (m.bindings.filterMap (fun (id, b) => (lookupL st.globals id).map (fun v => (b, flatten v))), st.notes)
 
 end Naga.Spv
